@@ -221,7 +221,7 @@ func worldWorker() {
 // ---------------------------------------------------------------- drive
 
 var tierRuns = map[string]map[string]int{
-	"quick":    {"C02": 1_000_000, "C03": 1_000_000, "C04": 1_500_000, "C05": 1_500_000, "C11": 600_000, "C12": 1_000_000, "C13": 800_000, "C19": 1_500_000},
+	"quick":    {"C02": 1_000_000, "C03": 1_500_000, "C04": 1_500_000, "C05": 2_000_000, "C11": 800_000, "C12": 1_500_000, "C13": 1_200_000, "C19": 1_500_000},
 	"thorough": {"C02": 40_000_000, "C03": 40_000_000, "C04": 60_000_000, "C05": 60_000_000, "C11": 20_000_000, "C12": 40_000_000, "C13": 40_000_000, "C19": 60_000_000},
 }
 
